@@ -110,6 +110,25 @@ pub fn child(args: &Args) {
     let game = tree::build(t).expect("zoo game");
     verif::reset();
     verif::set_draw_seed(Some(case["seed"].as_u64().unwrap_or(1)));
+    // the call is made twice in this process (same Game, same calling thread): what the first call leaves behind - in
+    // the Game, in the calling thread, in a thread pool - must not change the verdict of the second.  Moderate thread
+    // counts only (the huge ones are about the documented error, and cost seconds each)
+    if k != 1 && k <= 64 {
+        verif::set_draw_seed(Some(case["seed"].as_u64().unwrap_or(1)));
+        let first = util::catch(std::panic::AssertUnwindSafe(|| game.solve(meth, budget, thr, k, par.clone()).map(|_| ())));
+        let kind = |r: &Result<Result<(), ::cfr::SolveError>, String>| match r {
+            Err(_) => "panic".to_string(),
+            Ok(Err(e)) => format!("{e:?}"),
+            Ok(Ok(())) => "ok".to_string(),
+        };
+        verif::set_draw_seed(Some(case["seed"].as_u64().unwrap_or(1)));
+        let second = util::catch(std::panic::AssertUnwindSafe(|| game.solve(meth, budget, thr, k, par.clone()).map(|_| ())));
+        if kind(&first) != kind(&second) {
+            println!("{}", json!({"outcome": format!("second call on the same thread: {} after {}", kind(&second), kind(&first))}));
+            return;
+        }
+    }
+    verif::set_draw_seed(Some(case["seed"].as_u64().unwrap_or(1)));
     let res = util::catch(std::panic::AssertUnwindSafe(|| game.solve(meth, budget, thr, k, par)));
     let obs = match res {
         Err(msg) => json!({"outcome": "panic", "what": msg}),
